@@ -569,7 +569,8 @@ def monitor_case(c, impl):
         is_error_arm = field(fields, b"Server") is None
         cl = field(fields, b"Content-Length")
         conn = field(fields, b"Connection")
-        upgraded = c.get("hook_upgrade") and conn is None and not is_error_arm      # only the upgrade arm sends Server without Connection
+        # the upgrade arm sends whatever the subclass put into its response (+ Server); it is outside the statement's clauses
+        upgraded = c.get("hook_upgrade") and (r.get("upgrade") or not r.get("wellformed")) and not is_error_arm
         # Connection header and the close command agree (server up)
         if up and not upgraded:
             if (conn == b"close") != o["close"]:
@@ -729,7 +730,7 @@ def conn_spec(c):
             k = i + 1
             break
     expected = sum(lens[:k])
-    steps = ["b%d" % expected]
+    steps = ["b%d" % expected] + (["c"] if any(r["pred"].get("close") for r in reqs[:k]) else [])
     if c["mode"] == "seq":
         acc = 0
         for i, r in enumerate(reqs[:k]):
